@@ -225,6 +225,10 @@ def run(ctx):
                                               (T.const('ColdCardFirmwareVersion'), T.const('3.1.3'))]), T.NONE)
                 same_term(ob, leaf[0], exp, "Wasabi export: extended public key at m/84'/0'/0' in the node's own network version, "
                           "master fingerprint in upper-case hex", fw.where)
+                ind = S('indent', type='int')
+                v2, _ = ev.call_function('paper_wallet.PaperWallet.wasabi_json', [w], {'indent': ind})
+                l2 = distinct_normal_leaves(v2)
+                ob.require(len(l2) == 1 and T.is_op(l2[0], 'JSON') and l2[0][3] == ind, 'wasabi_json(indent=n) renders with that indent', fw.where)
     fj = p.get_function('paper_wallet.PaperWallet.json')
     with ctx.obligation('C06.JSON', 'PaperWallet.json', None, fj.where) as ob:
         ev = Evaluator(p, 'ecdsa')
